@@ -73,7 +73,7 @@ class Engine(ExprMixin, StmtMixin):
         self.spec_builtins = _lib.make_spec_builtins(self)
         self.depth = 0
         self.join_mode = 0
-        self.externals = {}
+        self.externals = dict(_lt.DEFAULT_EXTERNALS)
         self.cur_call_node = None
         _abs.install_spec_builtins(self)
         _lt.install_spec_builtins(self)
